@@ -1474,20 +1474,15 @@ class Interp(seq_detached.DetachedMixin, S.SeqRun):
     def has_stored_delete_cycle(self):
         """reference cycle among rows that are to be deleted, through the foreign keys they hold in the database (as
         of the last flush): plain DELETEs cannot be ordered then"""
-        base = getattr(self, 'flushed', None) or self.committed
-        dead = set(m for m, o in self.view.objs.items() if o.deleted and m in base.objs and not base.objs[m].deleted
-                   and base.objs[m].stored)
-        graph = {}
-        for mid in dead:
-            e = self.schema.by_name[base.objs[mid].ent]
-            outs = set()
-            for ra in e.to_ones():
-                if not getattr(self.E[e.name], ra.name).columns:
-                    continue
-                t = base.get_one(ra, mid)
-                if t is not None and t in dead:
-                    outs.add(t)
-            graph[mid] = outs
+        # Pony also flushes on its own (before queries), and such a flush writes whatever the session held at
+        # that moment: every foreign-key value a row had at any time since the last flush the engine knows of
+        # can be what the database holds (fk_edges_seen, kept by note_fk_edges)
+        self.note_fk_edges()
+        dead = set(m for m, o in self.view.objs.items() if o.deleted)
+        graph = dict((m, set()) for m in dead)
+        for (src, dst) in self.fk_edges_seen:
+            if src in dead and dst in dead:
+                graph[src].add(dst)
         color = {}
 
         def dfs(n):
@@ -1498,6 +1493,21 @@ class Interp(seq_detached.DetachedMixin, S.SeqRun):
             color[n] = 2
             return False
         return any(color.get(n) is None and dfs(n) for n in sorted(graph))
+
+    def note_fk_edges(self, reset=False):
+        """(row, row it refers to) pairs through foreign-key columns, accumulated since the last known flush"""
+        if reset or not hasattr(self, 'fk_edges_seen'):
+            self.fk_edges_seen = set()
+        for o in self.view.objs.values():
+            if o.deleted:
+                continue
+            e = self.schema.by_name[o.ent]
+            for ra in e.to_ones():
+                if not getattr(self.E[e.name], ra.name).columns:
+                    continue
+                t = self.view.get_one(ra, o.mid)
+                if t is not None:
+                    self.fk_edges_seen.add((o.mid, t))
 
     def has_new_cycle(self):
         """reference cycle among not-yet-stored objects through foreign-key columns"""
@@ -1565,6 +1575,7 @@ class Interp(seq_detached.DetachedMixin, S.SeqRun):
         for o in self.view.live():
             o.stored = True
         self.flushed = self.view.clone()
+        self.note_fk_edges(reset=True)
         self.released_keys = set()
         self.taken_keys = set()
         self.session_clean = not self.fault_fired_in_session
@@ -1612,6 +1623,7 @@ class Interp(seq_detached.DetachedMixin, S.SeqRun):
             self.last_handles, self.last_view = dict(self.handles), self.view
         self.view = self.committed.clone()
         self.flushed = None
+        self.note_fk_edges(reset=True)
         self.handles = {}
         self.h2m = {}
         self.dup_pending = None
@@ -1643,6 +1655,7 @@ class Interp(seq_detached.DetachedMixin, S.SeqRun):
         self.taken_keys = set()
         opts = dict(sess.get('opts') or {})
         self.cur_session_opts = opts
+        self.note_fk_edges(reset=True)
         policy = self.case.get('flush_policy', 'never')
         ended = 'exit'
         try:
